@@ -1,5 +1,6 @@
 import Lean.Data.Json
 import Pyxv.Model.ToJson
+import Pyxv.Model.FromJson
 import Pyxv.Model.OpsJVal
 /-! Driver operations for the `to_json_dict` model (element trees arrive in wire form). -/
 namespace Pyxv.ToJson
@@ -42,6 +43,27 @@ partial def elOfWire (j : Json) : Except String El := do
     | _ => pure []
   pure (.mk cls slots qk kw scalars kids opts choices)
 
+/-- the type table as entries: sections in first-occurrence order; section "" holds the string defaults. -/
+def entryOfRows (rows : List (String × String × String)) : Dict :=
+  rows.foldl (fun acc r =>
+    if r.1 = "" then acc ++ [(r.2.1.toList, J.str r.2.2.toList)]
+    else
+      match lookup r.1.toList acc with
+      | some (.obj kvs) => dictInsert r.1.toList (.obj (kvs ++ [(r.2.1.toList, J.str r.2.2.toList)])) acc
+      | _ => acc ++ [(r.1.toList, .obj [(r.2.1.toList, J.str r.2.2.toList)])]) []
+
+def treeKeys : List String := ["parent", "children", "choices"]
+
+/-- the builder configuration read from the tables regenerated from the source. -/
+def genCfg : Cfg where
+  surveyNames := (Gen.surveyFields.filter fun n => !treeKeys.contains n).map String.toList
+  sectionNames := (Gen.sectionFields.filter fun n => !treeKeys.contains n).map String.toList
+  questionNames := (Gen.questionFields.filter fun n => !treeKeys.contains n).map String.toList
+  selectNames := (Gen.selectQuestionFields.filter fun n => !treeKeys.contains n).map String.toList
+  qtd := Gen.questionTypes.map fun e => (e.1.toList, entryOfRows e.2)
+  selectTags := (Gen.questionClasses.filter fun c => c.2.1 = "MultipleChoiceQuestion").map fun c => c.1.toList
+  knownTags := (Gen.questionClasses.filter fun c => c.1 ≠ "osm").map fun c => c.1.toList
+
 def opsToJson (op : String) (j : Json) : Option (Except String Json) :=
   match op with
   | "tojson.dump" => some do
@@ -54,6 +76,12 @@ def opsToJson (op : String) (j : Json) : Option (Except String Json) :=
       let d1 := ownDump del slots
       let d2 := ownDump del (reloadSlots (slots.map Prod.fst) d1)
       pure (Json.mkObj [("d1", toWire (.obj d1)), ("d2", toWire (.obj d2))])
+  | "tojson.reload_tree" => some do
+      -- the builder model on a dumped dict, then the dump of what it built
+      let d ← ofWire (← j.getObjVal? "d")
+      match fromJson genCfg 200 d with
+      | none => pure (Json.mkObj [("ok", false)])
+      | some e => pure (Json.mkObj [("ok", true), ("dump", toWire (toJson e []))])
   | "tojson.option_reload" => some do
       -- an option: dump, reload, dump again
       let o ← optOfWire (← j.getObjVal? "opt")
